@@ -81,10 +81,12 @@ fn drop_unused_slots(spec: &RunSpec) -> RunSpec {
     let mut map = vec![usize::MAX; spec.slots.len()];
     let mut s = spec.clone();
     s.slots.clear();
+    s.build_on_thread.clear();
     for (i, c) in spec.slots.iter().enumerate() {
         if used[i] {
             map[i] = s.slots.len();
             s.slots.push(c.clone());
+            s.build_on_thread.push(spec.build_on_thread.get(i).copied().unwrap_or(false));
         }
     }
     for t in s.threads.iter_mut() {
@@ -258,6 +260,11 @@ pub fn minimize_file(path: &str, out: &str) -> i32 {
         {
             let cand = drop_unused_slots(rf.spec.as_ref().unwrap());
             if cand != *rf.spec.as_ref().unwrap() {
+                try_spec!(cand);
+            }
+            if rf.spec.as_ref().unwrap().build_on_thread.iter().any(|&b| b) {
+                let mut cand = rf.spec.as_ref().unwrap().clone();
+                cand.build_on_thread.iter_mut().for_each(|b| *b = false);
                 try_spec!(cand);
             }
             let mut cand = rf.spec.as_ref().unwrap().clone();
